@@ -76,6 +76,8 @@ var (
 	vcErrDown      = errors.New("vc: node is down")
 	vcErrNoRoute   = errors.New("vc: forward target unreachable")
 	vcErrRespLost  = errors.New("vc: response lost (partition)")
+	vcErrOpenHung  = errors.New("vc: Store.Open did not return within 60 s; the cluster must be discarded")
+	vcErrBounded   = errors.New("vc: operation did not finish within its bound")
 	vcErrCloseHung = errors.New("vc: Store.Close did not return within 15 s; the cluster must be discarded")
 )
 
@@ -469,12 +471,44 @@ func (c *vcCluster) describe() string {
 	return sb.String()
 }
 
+// vcOpenLimit bounds Store.Open of a node (normally well under a second).
+const vcOpenLimit = 60 * time.Second
+
+// vcStartLimit bounds vcNewCluster as a whole.
+const vcStartLimit = 150 * time.Second
+
 const vcTable = "CREATE TABLE kv(k TEXT PRIMARY KEY, v INTEGER)"
 
 // vcNewCluster starts o.N voters, node 0 bootstrapped and the rest joined, creates
 // the kv table and waits until every node has applied it. Node 0 is the leader
 // and has served a strong read in its term.
-func vcNewCluster(o vcOpts) (c *vcCluster, err error) {
+func vcNewCluster(o vcOpts) (*vcCluster, error) {
+	// bounded: a start that does not finish (it takes 1-10 s) is given up; whatever it
+	// had started is shut down if it ever returns
+	type result struct {
+		c   *vcCluster
+		err error
+	}
+	ch := make(chan result, 1)
+	var abandoned atomic.Bool
+	go func() {
+		c, err := vcStartCluster(o)
+		if abandoned.Load() && c != nil {
+			c.Close()
+			return
+		}
+		ch <- result{c, err}
+	}()
+	select {
+	case r := <-ch:
+		return r.c, r.err
+	case <-time.After(vcStartLimit):
+		abandoned.Store(true)
+		return nil, fmt.Errorf("vc: cluster start did not finish within %v", vcStartLimit)
+	}
+}
+
+func vcStartCluster(o vcOpts) (c *vcCluster, err error) {
 	o = o.withDefaults()
 	base := o.Base
 	if base == "" {
@@ -555,9 +589,23 @@ func (c *vcCluster) open(n *vcNode) error {
 		s.RaftLogLevel = lv
 	}
 	s.NoSnapshotOnClose = true
-	if err := s.Open(); err != nil {
+	// Store.Open can block for ever (bbolt waits without limit for the file lock, which a
+	// half-closed or half-opened earlier incarnation in this process may still hold) and a
+	// failed Open does not release what it had already opened. Either way this directory
+	// cannot be opened again in this process: the cluster is marked wedged.
+	opened := make(chan error, 1)
+	go func() { opened <- s.Open() }()
+	select {
+	case err := <-opened:
+		if err != nil {
+			ly.Close()
+			c.wedged.Store(true)
+			return fmt.Errorf("vc: open %s: %w (cluster marked wedged)", n.id, err)
+		}
+	case <-time.After(vcOpenLimit):
 		ly.Close()
-		return err
+		c.wedged.Store(true)
+		return vcErrOpenHung
 	}
 	idx := n.idx
 	s.raftTn.SetAppendEntriesTxHandler(func(req *raft.AppendEntriesRequest) error {
@@ -614,6 +662,10 @@ func (c *vcCluster) Crash(i int) error {
 	select {
 	case err := <-done:
 		ly.Close()
+		if err != nil {
+			// Close gave up part-way: the Store may still hold its files (bolt lock)
+			c.wedged.Store(true)
+		}
 		return err
 	case <-time.After(15 * time.Second):
 		ly.Close()
@@ -980,10 +1032,18 @@ func (c *vcCluster) noop(i int) (uint64, error) {
 	if err != nil {
 		return 0, err
 	}
-	if err := f.Error(); err != nil {
-		return 0, err
+	// the future resolves when the entry commits or leadership is lost; bound it anyway
+	done := make(chan error, 1)
+	go func() { done <- f.Error() }()
+	select {
+	case err := <-done:
+		if err != nil {
+			return 0, err
+		}
+		return f.Index(), nil
+	case <-time.After(20 * time.Second):
+		return 0, vcErrBounded
 	}
-	return f.Index(), nil
 }
 
 // Dump returns node i's kv table as text (read directly from its database).
@@ -1295,7 +1355,9 @@ func vcLinearizable(ops []vcLinOp, init int) bool {
 // harness calls it once so that a broken checker cannot report silence.
 func vcSelfTestLin(t testing.TB) {
 	w := func(v int, inv, resp int64) vcLinOp { return vcLinOp{Write: true, Val: v, Inv: inv, Resp: resp} }
-	mw := func(v int, inv int64) vcLinOp { return vcLinOp{Write: true, Val: v, Inv: inv, Resp: -1, Optional: true} }
+	mw := func(v int, inv int64) vcLinOp {
+		return vcLinOp{Write: true, Val: v, Inv: inv, Resp: -1, Optional: true}
+	}
 	r := func(v int, inv, resp int64) vcLinOp { return vcLinOp{Val: v, Inv: inv, Resp: resp} }
 	cases := []struct {
 		name string
